@@ -155,6 +155,7 @@ type Op struct {
 	Slash bool   `json:"slash,omitempty"` // send '/' of the object name unescaped in the URL path
 
 	BadBody bool  `json:"badBody"`
+	Junk    bool  `json:"junk,omitempty"` // Patch: the body also carries output-only fields (generation, metageneration, size, ...) with stale values; they are not writable
 	Srcs    []Src `json:"srcs"`
 	Db      j.B   `json:"db"`
 	Dn      j.B   `json:"dn"`
@@ -180,7 +181,7 @@ var opFields = map[string][]string{
 	"ResumablePut":   {"id", "ref", "lo", "total", "data", "md5full", "gen", "method"},
 	"GetMedia":       {"b", "n", "form", "slash"},
 	"GetMeta":        {"b", "n", "slash"},
-	"Patch":          {"b", "n", "attrs", "meta", "conds", "badBody"},
+	"Patch":          {"b", "n", "attrs", "meta", "conds", "badBody", "junk"},
 	"Delete":         {"b", "n", "conds"},
 	"Compose":        {"b", "n", "srcs", "attrs", "meta", "conds", "gen"},
 	"Copy":           {"b", "n", "db", "dn", "gen"},
